@@ -4,6 +4,7 @@ import WzVerif.Model.UrlSplit
 import WzVerif.Model.UrlEnviron
 import WzVerif.Model.UrlBuilder
 import WzVerif.Model.UrlProxyFix
+import WzVerif.Model.UrlHostServer
 namespace Wz.Driver.C15
 open Wz Wz.Proto Wz.Url
 
@@ -101,6 +102,12 @@ def handle : Handler
         let b ← if fe then fromEnviron o b.environ.toEnviron else pure b
         builderReport o b))
     | _, _, _, _, _, _, _, _, _, _ => some badArgs
+  -- gethost3 <scheme> <Host header|~> <server name|~> <server port|~>
+  | "gethost3", [scheme, host, name, port] =>
+    match unhexStr scheme, optArg unhexStr host, optArg unhexStr name, optArg natArg port with
+    | some scheme, some host, some name, some port =>
+      some (hexStr (getHostFull scheme host (name.map fun n => (n, port))))
+    | _, _, _, _ => some badArgs
   | "gethost", [scheme, host] =>
     match unhexStr scheme, unhexStr host with
     | some scheme, some host => some (hexStr (getHost scheme host))
